@@ -101,7 +101,7 @@ def cases(draw):
                           "dtype": draw(st.sampled_from(["f8", "f4", "i4"])), "fill": None,
                           "depth": dc["name"]})
     spec["vars"] = variables
-    spec["mode"] = draw(st.sampled_from(["raw", "decoded", "dask"]))
+    spec["mode"] = draw(st.sampled_from(["raw", "decoded", "dask", "file"]))
     return {
         "spec": spec,
         "positive_down": draw(st.sampled_from([None, True, False, True, False])),
